@@ -140,6 +140,22 @@ def geo_xyz (lr br r l0r b0r r0 : Num) : Num × Num × Num :=
 def light_time (v : Num × Num × Num) : Num :=
   0.0057755183 * psqrt (v.1 * v.1 + v.2.1 * v.2.1 + v.2.2 * v.2.2)
 
+/-- the "Correction to FK5 system" block of `<Planet>.geocentric_position`: `(deltal2, deltab2)` as Angles;
+    `t` Julian centuries, `lamb` the geocentric longitude (Angle), `b` the HELIOCENTRIC latitude (Angle) -/
+def geo_fk5_deltas (t lamb b : Num) : Num × Num :=
+  -- l_prime = lamb - t * (1.397 + t * 0.00031)
+  let l_prime := angSubF lamb (t * (1.397 + t * 0.00031))
+  -- deltal2 = Angle(0, 0, -0.09033)
+  let deltal2 := angDms 0 0 (-0.09033)
+  -- a = 0.03916 * (cos(l_prime.rad()) + sin(l_prime.rad())); a = a * tan(b.rad())
+  let a := 0.03916 * (pcos (angRad l_prime) + psin (angRad l_prime))
+  let a := a * ptan (angRad b)
+  -- deltal2 += Angle(0, 0, a)
+  let deltal2 := angAdd deltal2 (angDms 0 0 a)
+  -- deltab2 = 0.03916 * (cos(l_prime.rad()) - sin(l_prime.rad())); deltab2 = Angle(0, 0, deltab2)
+  let deltab2 := angDms 0 0 (0.03916 * (pcos (angRad l_prime) - psin (angRad l_prime)))
+  (deltal2, deltab2)
+
 /-- everything after the second heliocentric position: aberration, FK5, nutation, equatorial coordinates
     and the elongation.  `ep` is the (shifted) epoch the code has in `epoch` at that point, `l0` the
     Earth's longitude of the first pass, `b` the planet's latitude of the second pass, `v` the second
@@ -172,17 +188,10 @@ def planet_reduction (ep l0 b : Num) (v : Num × Num × Num) : PyRes (Num × Num
   -- lamb = Angle(lamb, radians=True); lamb = lamb.to_positive(); beta = Angle(beta, radians=True)
   let lamb := angToPositive (angOfRad lamb)
   let beta := angOfRad beta
-  -- l_prime = lamb - t * (1.397 + t * 0.00031)
-  let l_prime := angSubF lamb (t * (1.397 + t * 0.00031))
-  -- deltal2 = Angle(0, 0, -0.09033)
-  let deltal2 := angDms 0 0 (-0.09033)
-  -- a = 0.03916 * (cos(l_prime.rad()) + sin(l_prime.rad())); a = a * tan(b.rad())
-  let a := 0.03916 * (pcos (angRad l_prime) + psin (angRad l_prime))
-  let a := a * ptan (angRad b)
-  -- deltal2 += Angle(0, 0, a)
-  let deltal2 := angAdd deltal2 (angDms 0 0 a)
-  -- deltab2 = 0.03916 * (cos(l_prime.rad()) - sin(l_prime.rad())); deltab2 = Angle(0, 0, deltab2)
-  let deltab2 := angDms 0 0 (0.03916 * (pcos (angRad l_prime) - psin (angRad l_prime)))
+  -- l_prime = …; deltal2 = …; deltab2 = …        (correction to the FK5 system, see `geo_fk5_deltas`)
+  let fk := geo_fk5_deltas t lamb b
+  let deltal2 := fk.1
+  let deltab2 := fk.2
   -- lamb = lamb + deltal1 + deltal2; beta = beta + deltab1 + deltab2
   let lamb := angAdd (angAdd lamb deltal1) deltal2
   let beta := angAdd (angAdd beta deltab1) deltab2
